@@ -13,8 +13,12 @@ RULE = ("cases: (i) integers - every |v| <= 2^18 (thorough 2^22), +-2^k+d for k 
         "zero / 0xff / 0x01.. / 0x81.. / random contents, lists of pushes; (iv) truncations - every push form (direct, "
         "PUSHDATA1/2/4, minimal or not) cut at every point of the length field and at start / middle / last byte of the "
         "data, at pc 0 and after a prefix; (v) scripts - every known opcode alone and in pairs, random sequences of 0..200 "
-        "known opcodes and minimal pushes. Non-trivial: v != 0, non-empty string, any push, script with >= 1 instruction; "
-        "distinct by (kind, value).")
+        "known opcodes and minimal pushes; get_opcodes started at every class of instruction boundary (pc argument); "
+        "(vi) call histories on the shared ScriptTools / ScriptStreamer objects - every query class re-checked right after a "
+        "call that failed part-way (script text with a bad token after k good ones, non-minimal push under "
+        "verify_minimal_data, truncated script, wrong argument type, non-minimal number), after an abandoned or exhausted "
+        "get_opcodes iterator, and with two iterators advanced alternately. Non-trivial: v != 0, non-empty string, any push, "
+        "script with >= 1 instruction; distinct by (kind, value).")
 ASSUMPTIONS = [
     "vmon/refs/scriptnum.py is a faithful port of Core's CScriptNum::serialize/set_vch/minimality test, GetScriptOp, "
     "minimal push encoder and CheckMinimalPush (self-tested on every run: hand-derived boundary encodings, the "
@@ -27,6 +31,8 @@ ASSUMPTIONS = [
     "decoding of NON-minimal number encodings without require_minimal, rejection of non-minimal pushes under "
     "verify_minimal_data, and the text form of scripts outside 'known opcodes and minimal pushes' are not judged "
     "(the statement is silent; C03 covers the interpreter side)",
+    "in history shards the call that is made to fail is only observed (the statement does not say which texts compile() must "
+    "reject); what is judged is the next well-formed query, whose expected result does not depend on earlier calls",
 ]
 EXPLANATION = ("every IntStreamer / ScriptStreamer / ScriptTools call is compared with the reference: exact bytes for encoders, "
                "exact value and accept/reject for decoders, is_ok for truncated pushes, byte identity for "
@@ -56,6 +62,8 @@ def plan(tier, seed):
         shards.append({"kind": "push_len", "lo": lo, "hi": hi, "reps": 1 if q else 12, "label": "push%d" % lo})
     shards.append({"kind": "trunc", "n": 4000 if q else 200000, "label": "trunc"})
     shards.append({"kind": "script_enum", "label": "script_enum"})
+    for p in range(2 if q else 6):
+        shards.append({"kind": "hist", "n": 4000 if q else 60000, "label": "hist%d" % p})
     ns = 10 if q else 16
     for p in range(ns):
         shards.append({"kind": "scripts", "n": 3500 if q else 100000, "label": "scripts%d" % p})
@@ -291,6 +299,21 @@ def check_decode_sequence(script, rec, M, case):
             rec.violation("get_opcodes.instruction_mismatch." + _instr_class(op, data), case,
                           [g[0], None if gd is None else gd[:8], g[2], g[3]], [op, None if want is None else want[:8], pc, npc])
             return
+    # decoding started at an instruction boundary other than 0 yields the tail of the same sequence
+    if len(ref) >= 2:
+        for k, kw in ((len(ref) // 2, True), (1 if len(script) & 1 else len(ref) - 1, False)):
+            start = ref[k][2]
+            rec.ev("get_opcodes.start_pc")
+            for call in ((lambda: list(M.tools.get_opcodes(script, pc=start))) if kw else
+                         (lambda: list(M.tools.get_opcodes(script, False, start))),):
+                st, got = observe(call)
+                tail = None if st != "ok" else [(g[0], None if g[1] is None else bytes(g[1]), g[2], g[3]) for g in got]
+                want = [(op, R.stack_value(op, data), pc, npc) for op, data, pc, npc in ref[k:]]
+                if tail is None or len(tail) != len(want) or any(
+                        (t[0], t[2], t[3]) != (w[0], w[2], w[3]) or (w[1] is not None and t[1] != w[1]) for t, w in zip(tail, want)):
+                    rec.violation("get_opcodes.start_pc_mismatch", dict(case, start_pc=start),
+                                  got if st != "ok" else [list(t[:1] + t[2:]) for t in tail[:3]], [list(w[:1] + w[2:]) for w in want[:3]])
+                    return
     rec.ev("get_opcodes.verify_minimal_data")
     st, got = observe(lambda: list(M.tools.get_opcodes(script, verify_minimal_data=True)))
     if st != "ok":
@@ -516,9 +539,11 @@ def run_script_enum(spec, rec, M):
     rec.sample({"op": "compile(disassemble(s))", "script": s, "text": observe(M.tools.disassemble, s)[1]})
 
 
-def _rand_script(rng):
+def _rand_script(rng, small=False):
     ops = R.KNOWN_NONPUSH_OPCODES
     n = rng.choice([0, 1, 2, 3, 5, 8, 13, 25, 50, 100, 200, rng.randrange(0, 201)])
+    if small:
+        n = min(n, rng.choice([3, 8, 30]))
     out = []
     for _ in range(n):
         r = rng.random()
@@ -529,7 +554,7 @@ def _rand_script(rng):
         else:
             L = rng.choice([0, 1, 1, 2, 2, 3, 4, 5, 8, 20, 32, 33, 65, 71, 72, 73, 75, 76, 77, 80, 255, 256, 520,
                             rng.randrange(0, 80), rng.randrange(0, 600)])
-            if rng.random() < 0.004:
+            if rng.random() < 0.004 and not small:
                 L = rng.choice([65535, 65536, 65537])
             m = rng.random()
             if L == 1:
@@ -558,17 +583,200 @@ def run_scripts(spec, rec, M):
                         if R.parse(s[:60]) is not None else None})
 
 
+# -- call histories ---------------------------------------------------------------------------
+# network.script / its scriptStreamer are process-wide objects. A well-formed query must give the reference's answer whatever
+# was asked before: after a call that failed part-way, after an iterator was left half-consumed, with two iterators in flight.
+
+BAD_TOKENS = ["not-a-token", "[abc]", "[zz]", "[", "]", "0xzz", "0x1", "op_dup", "dup", "'open", "OP_NOTANOP", "OP_PUSHDATA9",
+              "1e5", "--1", "[0x12]", "\u00e9", "0x", "[]", "99999999999999999999999", "OP_", "''"]
+
+
+def _hist_probes(M, s, d, v):
+    """One well-formed query of every class the property names -> [(tag, observed, expected)] for those that are wrong."""
+    out = []
+    bad, info = _roundtrip(s, M)
+    if bad:
+        out.append(("roundtrip_" + bad, info, s[:40]))
+    st, e = observe(M.tools.compile, "")
+    if st != "ok" or bytes(e) != b"":
+        out.append(("compile_empty_text", e, b""))
+    ref = R.parse(s)
+    want = [(op, pc, npc) for op, data, pc, npc in ref]
+    st, got = observe(lambda: [(g[0], g[2], g[3]) for g in M.tools.get_opcodes(s)])
+    if st != "ok" or got != want:
+        out.append(("get_opcodes", got if st != "ok" else got[:4], want[:4]))
+    exp = R.push_encode(d)
+    st, p = observe(M.streamer.compile_push_data, d)
+    if st != "ok" or bytes(p) != exp:
+        out.append(("compile_push_data", p if st != "ok" else bytes(p)[:8], exp[:8]))
+    exp2 = exp + R.push_encode(b"") + R.push_encode(d[:1])
+    st, p = observe(M.tools.compile_push_data_list, [d, b"", d[:1]])
+    if st != "ok" or bytes(p) != exp2:
+        out.append(("compile_push_data_list", p if st != "ok" else bytes(p)[:8], exp2[:8]))
+    for vm in (False, True):
+        st, r = observe(M.streamer.get_opcode, exp, 0, verify_minimal_data=vm)
+        if st != "ok" or r[1] is None or bytes(r[1]) != d or r[2] != len(exp) or r[3] is not True or r[0] != exp[0]:
+            out.append(("get_opcode", r if st != "ok" else [r[0], r[2], r[3]], [exp[0], len(exp), True]))
+    enc = R.serialize(v)
+    for IS in M.ints:
+        st, got = observe(IS.int_to_script_bytes, v)
+        if st != "ok" or bytes(got) != enc:
+            out.append(("int_to_script_bytes", got, enc))
+        for rm in (False, True):
+            st, back = observe(IS.int_from_script_bytes, enc, require_minimal=rm)
+            if st != "ok" or back != v:
+                out.append(("int_from_script_bytes", back, v))
+    return out
+
+
+def _hist_disturb(dist, M, keep):
+    """A call (or two) that fails or is abandoned part-way. Only observed. -> 'raised' / 'returned'."""
+    k = dist["d"]
+    if k == "bad_text":
+        return "raised" if observe(M.tools.compile, dist["text"])[0] != "ok" else "returned"
+    if k == "bad_expression":
+        return "raised" if observe(M.tools.compile_expression, dist["text"])[0] != "ok" else "returned"
+    if k == "nonminimal_decode":
+        a = observe(lambda: list(M.tools.get_opcodes(dist["script"], verify_minimal_data=True)))[0]
+        observe(M.streamer.get_opcode, dist["script"], 0, verify_minimal_data=True)
+        return "raised" if a != "ok" else "returned"
+    if k == "truncated":
+        observe(M.tools.disassemble, dist["script"])
+        observe(M.tools.opcode_list, dist["script"])
+        a = observe(lambda: list(M.tools.get_opcodes(dist["script"], verify_minimal_data=True)))[0]
+        return "raised" if a != "ok" else "returned"
+    if k == "bad_arg":
+        calls = [lambda: M.streamer.compile_push_data(None), lambda: M.streamer.compile_push_data("ab"),
+                 lambda: M.tools.compile_push_data_list([b"abc", 5]), lambda: M.ints[0].int_to_script_bytes("x"),
+                 lambda: M.ints[0].int_from_script_bytes(b"\x05\x00", require_minimal=True), lambda: M.tools.compile(None),
+                 lambda: M.tools.disassemble(None), lambda: M.streamer.get_opcode(b"", 0),
+                 lambda: M.streamer.get_opcode(b"\x51", 5), lambda: M.tools.compile_push_data_list([b"abc" * 30, None, "x"]),
+                 lambda: M.tools.write_push_data([b"abc", b"de"], None)]
+        return "raised" if observe(calls[dist["which"] % len(calls)])[0] != "ok" else "returned"
+    if k == "iterator":
+        g = M.tools.get_opcodes(dist["script"], dist.get("vm", False))
+        for _ in range(dist["steps"]):
+            if observe(next, g)[0] != "ok":
+                break
+        if dist.get("close"):
+            g.close()
+        else:
+            keep.append(g)          # stays suspended while the next queries are made
+        return "returned"
+    raise ValueError(k)
+
+
+def check_hist(case, rec, M, keep, in_replay=False):
+    s, d, v, dist = case["script"], case["data"], int(case["v"]), case["disturb"]
+    rec.case(("hist", s, d, v, dist["d"], dist.get("text"), dist.get("script"), dist.get("which"), dist.get("steps")))
+    before = _hist_probes(M, s, d, v)
+    if before:
+        for tag, got, exp in before[:2]:
+            rec.violation("hist.unprovoked." + tag, case, got, exp)
+        return
+    rec.ev("hist.disturbance." + dist["d"])
+    rec.ev("hist.disturbance_" + _hist_disturb(dist, M, keep))
+    rec.ev("hist.query_after_disturbance")
+    for tag, got, exp in _hist_probes(M, s, d, v)[:3]:
+        rec.violation("hist.after_%s.%s" % (dist["d"], tag), case, got, exp)
+
+
+def check_interleave(case, rec, M):
+    """Two get_opcodes iterators advanced alternately: each yields its own script's instruction sequence."""
+    scripts = [case["a"], case["b"]]
+    rec.case(("interleave", scripts[0], scripts[1], tuple(case["order"])))
+    rec.ev("get_opcodes.interleaved")
+    refs = [[(op, pc, npc) for op, data, pc, npc in R.parse(x)] for x in scripts]
+    for w in (0, 1):        # each script alone first: a plain decoding fault is reported by the other shards, not here
+        st, alone = observe(lambda: [(g[0], g[2], g[3]) for g in M.tools.get_opcodes(scripts[w], bool(w and case.get("vm", False)))])
+        if st != "ok" or alone != refs[w]:
+            return
+    its = [M.tools.get_opcodes(scripts[0]), M.tools.get_opcodes(scripts[1], case.get("vm", False))]
+    got = [[], []]
+    done = [False, False]
+    order = list(case["order"]) + [0, 1] * (len(refs[0]) + len(refs[1]) + 2)
+    for w in order:
+        if done[w]:
+            continue
+        st, g = observe(next, its[w])
+        if st != "ok":
+            done[w] = True
+            if not isinstance(g, StopIteration):
+                got[w].append(("raised", type(g).__name__, None))
+        else:
+            got[w].append((g[0], g[2], g[3]))
+        if all(done):
+            break
+    for w in (0, 1):
+        if got[w] != refs[w]:
+            rec.violation("hist.interleaved_get_opcodes", case, got[w][:4], refs[w][:4])
+            return
+
+
+def _small_script(rng):
+    return _rand_script(rng, small=True)
+
+
+def _nonminimal_script(rng):
+    d = bytes(rng.getrandbits(8) for _ in range(rng.choice([1, 2, 5, 75])))
+    form = rng.choice(["pushdata1", "pushdata2", "pushdata4"])
+    pre = rng.choice([b"", b"\x51\x76", R.push_encode(b"\x22" * 30)])
+    if rng.random() < 0.3:
+        return pre + b"\x01" + bytes([rng.choice([0, 1, 5, 16, 0x81])]) + b"\xac"
+    return pre + R.push_raw(d, form) + b"\x87"
+
+
+def run_hist(spec, rec, M):
+    rng = shard_rng(spec["seed"], PROPERTY, spec["tier"], spec["shard"])
+    keep = []
+    for i in range(spec["n"]):
+        s = _small_script(rng)
+        L = rng.choice([0, 1, 1, 2, 20, 33, 75, 76, 255, 256, 300])
+        d = bytes([rng.choice([0, 1, 16, 17, 0x81, 0x80, rng.getrandbits(8)])]) if L == 1 else bytes(rng.getrandbits(8) for _ in range(L))
+        v = rng.choice([0, 1, -1, 127, 128, -128, 255, 256, 32767, 32768, -32768, rng.randrange(-(1 << 40), 1 << 40)])
+        k = i % 8
+        if k in (0, 1, 2):
+            toks = str(observe(M.tools.disassemble, _small_script(rng))[1]).split()[:60]
+            pos = rng.choice([len(toks), len(toks), rng.randrange(0, len(toks) + 1), min(1, len(toks))])
+            bad = rng.choice(BAD_TOKENS)
+            toks = toks[:pos] + [bad] + (toks[pos:] if rng.random() < 0.5 else [])
+            dist = {"d": "bad_text", "text": " ".join(toks)}
+        elif k == 3:
+            dist = {"d": "bad_expression", "text": rng.choice(BAD_TOKENS)}
+        elif k == 4:
+            dist = {"d": "nonminimal_decode", "script": _nonminimal_script(rng)}
+        elif k == 5:
+            t = _small_script(rng) + R.push_encode(bytes(rng.getrandbits(8) for _ in range(rng.choice([2, 40, 80, 300]))))
+            dist = {"d": "truncated", "script": t[:len(t) - rng.choice([1, 1, 2, rng.randrange(1, 3)])]}
+        elif k == 6:
+            dist = {"d": "bad_arg", "which": rng.randrange(11)}
+        else:
+            t = _small_script(rng)
+            dist = {"d": "iterator", "script": t, "steps": rng.choice([0, 1, 2, 3, 1000]), "close": rng.random() < 0.3,
+                    "vm": rng.random() < 0.3}
+        check_hist({"kind": "hist", "script": s, "data": d, "v": v, "disturb": dist}, rec, M, keep)
+        del keep[:-4]
+        if i % 4 == 0:
+            a, b = _small_script(rng), _small_script(rng)
+            check_interleave({"kind": "interleave", "a": a, "b": b, "vm": rng.random() < 0.3,
+                              "order": [rng.randrange(2) for _ in range(rng.choice([2, 6, 20]))]}, rec, M)
+        if i == 0:
+            rec.sample({"op": "query after a failed call", "failed_call": dist, "then": "compile(disassemble(s)), get_opcodes, pushes, ints"})
+
+
 # ---------------------------------------------------------------------------------------------
 
 _RUN = {"ints": run_ints, "int_edges": run_int_edges, "numbytes": run_numbytes, "push_small": run_push_small,
-        "push_len": run_push_len, "trunc": run_trunc, "script_enum": run_script_enum, "scripts": run_scripts}
+        "push_len": run_push_len, "trunc": run_trunc, "script_enum": run_script_enum, "scripts": run_scripts, "hist": run_hist}
 _REQ = {"ints": ["int_to_script_bytes", "int_from_script_bytes"], "int_edges": ["int_to_script_bytes", "int_from_script_bytes"],
         "numbytes": ["int_from_script_bytes.require_minimal", "numbytes.minimal", "numbytes.nonminimal"],
         "push_small": ["compile_push_data", "get_opcode", "get_opcode.verify_minimal_data", "compile_push_data_list", "get_opcodes"],
         "push_len": ["compile_push_data", "get_opcode", "get_opcode.verify_minimal_data"],
         "trunc": ["get_opcode.truncated", "trunc.length_field", "trunc.data"],
         "script_enum": ["compile", "disassemble", "opcode_list", "get_opcodes"],
-        "scripts": ["compile", "disassemble", "opcode_list", "get_opcodes", "get_opcodes.verify_minimal_data"]}
+        "scripts": ["compile", "disassemble", "opcode_list", "get_opcodes", "get_opcodes.verify_minimal_data", "get_opcodes.start_pc"],
+        "hist": ["hist.query_after_disturbance", "hist.disturbance_raised", "hist.disturbance.bad_text", "hist.disturbance.iterator",
+                 "get_opcodes.interleaved"]}
 
 
 def run_shard(spec, rec):
@@ -600,8 +808,28 @@ def replay_case(case, rec):
             rec.note("replay: script is not parsable by the reference; outside the property")
             return
         check_script(s, rec, M, True)
+    elif kind == "hist":
+        c = dict(case)
+        for k in ("script", "data"):
+            if not isinstance(c[k], bytes):
+                c[k] = b""
+        c["disturb"] = _fix_script(c["disturb"])
+        check_hist(c, rec, M, [])
+    elif kind == "interleave":
+        c = dict(case)
+        for k in ("a", "b"):
+            if not isinstance(c[k], bytes):
+                c[k] = b""
+        check_interleave(c, rec, M)
     else:
         raise ValueError("unknown case kind %r" % kind)
+
+
+def _fix_script(d):
+    d = dict(d)
+    if "script" in d and not isinstance(d["script"], bytes):
+        d["script"] = b""
+    return d
 
 
 def _fix(case):
